@@ -583,6 +583,23 @@ static int m_recv(const void *sk, void *buf, const size_t len, const time_t time
 		s->cfg.iv_mode = s->cfg.mode_switch_to;
 		CNT(s->ex.open ? "c17/interval_mode_switched_inside_a_response" : "c17/interval_mode_switched_between_responses");
 	}
+	/* another socket on the same tables is stopped (or expires) while this client is inside a response: its records leave
+	 * the tables now and must not be back when the response has been applied - not even when that response is a reload
+	 * through shadow tables */
+	if (s->cfg.other_leaves_at_byte > 0 && !s->other_left && s->other[0] && s->ex.open && s->connected &&
+	    (!s->cfg.other_leaves_in_a_reload || (s->ex.qtype == 2 && s->ever_synced)) &&
+	    s->delivered_total >= s->ex.resp_off + (size_t)s->cfg.other_leaves_at_byte) {
+		s->other_left = true;
+		s->cb_count_paused = true;
+		pfx_table_src_remove(s->pfxt, s->other[0]);
+		spki_table_src_remove(s->spkit, s->other[0]);
+		s->cb_count_paused = false;
+		bs_zero(&s->other_p[0]);
+		bs_zero(&s->other_k[0]);
+		CNT("c07/other_source_left_inside_a_response");
+		if (s->ex.qtype == 2 && s->ever_synced)
+			CNT("c07/other_source_left_inside_a_reload");
+	}
 	int f = tfault_for_call(s, TC_RECV);
 
 	/* fault by stream position: the read that would deliver byte number intr_at_byte + 1 of this connection is
